@@ -414,7 +414,17 @@ impl<'a> CompilerState<'a> {
         &self,
         pairs: Pairs<'a, Rule>,
     ) -> Result<(Expr, HashMap<String, String>), Error> {
-        let literal_counter = Rc::new(Mutex::new(self.literal_counter));
+        self.parse_expr_ex_from(pairs, self.literal_counter)
+    }
+
+    // `first_literal`: number of the next literal of the enclosing expression (a nested
+    // sub-expression goes on numbering where its parent stopped)
+    fn parse_expr_ex_from(
+        &self,
+        pairs: Pairs<'a, Rule>,
+        first_literal: usize,
+    ) -> Result<(Expr, HashMap<String, String>), Error> {
+        let literal_counter = Rc::new(Mutex::new(first_literal));
         let literal_strings = Rc::new(Mutex::new(HashMap::<String, String>::new()));
         if pairs.len() == 0 {
             let lit_strs = Rc::into_inner(literal_strings)
@@ -431,7 +441,8 @@ impl<'a> CompilerState<'a> {
                         self.parse_int(primary.into_inner().next().unwrap())?,
                     )),
                     Rule::expr => {
-                        let res = self.parse_expr_ex(primary.into_inner())?;
+                        let first = *literal_counter.lock().unwrap();
+                        let res = self.parse_expr_ex_from(primary.into_inner(), first)?;
                         let mut lit_strs = literal_strings.lock().unwrap();
                         for k in &res.1 {
                             lit_strs.insert(k.0.clone(), k.1.clone());
@@ -514,7 +525,8 @@ impl<'a> CompilerState<'a> {
                 Rule::pp => Ok(Expr::PlusPlus(Box::new(lhs?), true)),
                 Rule::call => {
                     let params = if let Some(x) = op.into_inner().next() {
-                        let res = self.parse_expr_ex(x.into_inner())?;
+                        let first = *literal_counter.lock().unwrap();
+                        let res = self.parse_expr_ex_from(x.into_inner(), first)?;
                         let mut lit_strs = literal_strings.lock().unwrap();
                         for k in &res.1 {
                             lit_strs.insert(k.0.clone(), k.1.clone());
@@ -582,7 +594,17 @@ impl<'a> CompilerState<'a> {
         &self,
         pairs: Pairs<'a, Rule>,
     ) -> Result<(Expr, HashMap<String, String>), Error> {
-        let literal_counter = Rc::new(Mutex::new(self.literal_counter));
+        self.parse_expr_init_value_ex_from(pairs, self.literal_counter)
+    }
+
+    // `first_literal`: number of the next literal of the enclosing expression (a nested
+    // sub-expression goes on numbering where its parent stopped)
+    fn parse_expr_init_value_ex_from(
+        &self,
+        pairs: Pairs<'a, Rule>,
+        first_literal: usize,
+    ) -> Result<(Expr, HashMap<String, String>), Error> {
+        let literal_counter = Rc::new(Mutex::new(first_literal));
         let literal_strings = Rc::new(Mutex::new(HashMap::<String, String>::new()));
         let res = self
             .pratt_init_value
@@ -592,7 +614,8 @@ impl<'a> CompilerState<'a> {
                         self.parse_int(primary.into_inner().next().unwrap())?,
                     )),
                     Rule::expr => {
-                        let res = self.parse_expr_ex(primary.into_inner())?;
+                        let first = *literal_counter.lock().unwrap();
+                        let res = self.parse_expr_ex_from(primary.into_inner(), first)?;
                         let mut lit_strs = literal_strings.lock().unwrap();
                         for k in &res.1 {
                             lit_strs.insert(k.0.clone(), k.1.clone());
@@ -674,7 +697,8 @@ impl<'a> CompilerState<'a> {
                 Rule::pp => Ok(Expr::PlusPlus(Box::new(lhs?), true)),
                 Rule::call => {
                     let params = if let Some(x) = op.into_inner().next() {
-                        let res = self.parse_expr_ex(x.into_inner())?;
+                        let first = *literal_counter.lock().unwrap();
+                        let res = self.parse_expr_ex_from(x.into_inner(), first)?;
                         let mut lit_strs = literal_strings.lock().unwrap();
                         for k in &res.1 {
                             lit_strs.insert(k.0.clone(), k.1.clone());
